@@ -60,6 +60,13 @@ func commonVariants() []variant {
 		v1("ifs-empty", "--ifs", ""),
 		v1("ips-empty", "--ips", ""),
 		v1("irs-empty", "--irs", ""),
+		// malformed backslash escapes in separator options (the option parser un-backslashes them)
+		v1("ifs-bad-hex-escape", "--ifs", `\xZ`),
+		v1("ifs-bare-hex-escape", "--ifs", `\x`),
+		v1("ips-short-unicode-escape", "--ips", `\u12`),
+		v1("irs-windows-path", "--irs", `C:\Users`),
+		v1("ifs-bare-backslash", "--ifs", `\`),
+		v1("ifs-octal-escape", "--ifs", `\1`),
 	}
 }
 
